@@ -387,39 +387,50 @@ class Ctx:
 
 
 def proofs(ctx, prop_file, extract_files=(), components=()):
-    """Build + capture the proof obligations of a property.  Returns True if all
-    theorems check; on a break records it in ctx.broken (the caller then runs its
-    search oracle)."""
-    ctx.checker_cmd = (f'coqc 8.16.1 (full .vo build via coq_makefile/make of props/{prop_file}.vo and its '
-                       f'dependencies from regenerated coq/gen/*.v; then coqc props/{prop_file}.v for Print Assumptions)')
+    """Build + capture the proof obligations of a property.  `prop_file` is the
+    name of one theorem file in coq/props (or a list of them).  Returns True if
+    all theorems check; on a break records it in ctx.broken (the caller then
+    runs its search oracle)."""
+    files = [prop_file] if isinstance(prop_file, str) else list(prop_file)
+    ctx.checker_cmd = ('coqc 8.16.1 (full .vo build via coq_makefile/make of '
+                       + ', '.join(f'props/{f}.vo' for f in files) +
+                       ' and their dependencies from regenerated coq/gen/*.v; then coqc of each theorem file for Print Assumptions)')
     ctx.broken = None
+    pas = []
     try:
         with Lock():     # one critical section: nobody regenerates / rebuilds in between
-            log = build_locked(prop_file, extract_files, components)
-            pa = print_assumptions(prop_file, lock=False)
+            log = ''
+            for i, f in enumerate(files):
+                log = build_locked(f, extract_files if i == 0 else (), components if i == 0 else ())
+            for f in files:
+                pas.append(print_assumptions(f, lock=False))
         ctx.notes.append(log.strip().replace('\n', '; '))
     except BuildBroken as b:
         ctx.broken = b
         ctx.notes.append(f'BROKEN: {b.what}')
         return False
-    n = len(pa['theorems'])
-    ctx.obligations = n
-    if pa['missing_print']:
-        ctx.broken = BuildBroken(f'theorems without Print Assumptions: {pa["missing_print"]}', '')
+    theorems = [t for pa in pas for t in pa['theorems']]
+    ctx.obligations = len(theorems)
+    missing = [t for pa in pas for t in pa['missing_print']]
+    if missing:
+        ctx.broken = BuildBroken(f'theorems without Print Assumptions: {missing}', '')
         return False
-    ctx.discharged = n
+    ctx.discharged = len(theorems)
+    axioms = sorted({a for pa in pas for a in pa['axioms']})
+    closed = sum(pa['closed'] for pa in pas)
     base = ['Coq 8.16.1 kernel (coqc, vm_compute; no native_compute)']
-    if pa['axioms']:
-        base.append('axioms reported by Print Assumptions: ' + ', '.join(pa['axioms']))
+    if axioms:
+        base.append('axioms reported by Print Assumptions (standard-library axioms only): ' + ', '.join(axioms)
+                    + f'; {closed} statements closed under the global context')
     else:
-        base.append(f'Print Assumptions: all {pa["closed"]} theorems closed under the global context (no axioms)')
+        base.append(f'Print Assumptions: all {closed} theorems closed under the global context (no axioms)')
     base.append('translator harness/gen_tables.py (python ast, fail-closed) for coq/gen/Tables.v')
     if extract_files:
         base.append('extraction: ExtrOcamlBasic only (Extract Inductive bool/option/unit/list/prod/sumbool/comparison), no Extract Constant; '
                     'ocaml/conv.ml + ocaml/*_main.ml line drivers; ocamlfind ocamlopt 4.13.1 -- trusted for the correspondence only')
     ctx.trusted = base
-    ctx.cov['theorems'] = pa['theorems']
-    ctx.cov['nonvacuity_examples'] = pa['examples']
+    ctx.cov['theorems'] = theorems
+    ctx.cov['nonvacuity_examples'] = [e for pa in pas for e in pa['examples']]
     return True
 
 
